@@ -1,6 +1,8 @@
 """Shared by C06.py and C12.py: case generator for harness/drivers/deps_driver.py, derivation of per-execution
 facts from the driver's event log, the two direct oracles (literal transcriptions of the property statements over
 implementation observations - they never look at the Coq model) and the Coq literal printers."""
+import json
+
 import common as C
 
 YIELDING = ("gen", "agen", "cm", "acm")
@@ -27,7 +29,7 @@ def gen_graph(r, nn):
             for _ in range(r.choice([1, 1, 2, 2, 3])):
                 c = r.randrange(k)
                 if depth_of(nodes, c, memo) <= 2:
-                    subs.append([c, r.random() < .55])
+                    subs.append([c, r.random() < .62])
         nodes.append({"style": r.choice(STYLES + YIELDING), "ctx": r.random() < .75, "subs": subs,
                       "swallow": r.random() < .15})
     return nodes
@@ -51,7 +53,7 @@ def gen_case(r):
     nodes = gen_graph(r, nn)
     tasks = []
     for _ in range(r.choice([1, 1, 2])):
-        deps = [[r.randrange(nn), r.random() < .55] for _ in range(r.choice([1, 2, 2, 3]))]
+        deps = [[r.randrange(nn), r.random() < .62] for _ in range(r.choice([1, 2, 2, 3]))]
         # prefer the deeper nodes as entry points
         if r.random() < .6:
             deps[0][0] = nn - 1
@@ -358,6 +360,9 @@ def oracle_c12(case, d):
         if g < last:
             out.append(("%s happened before a dependency of the execution was finalised" % what,
                         dict(visible_at=g, last_teardown_at=last), "teardown < visible", {"kind": "late"}))
+    if d.cb_done is not None:
+        out.append(("Receiver.callback raised instead of storing the result / acknowledging the message after teardown",
+                    dict(cb_done=d.cb_done, closes=closes), "callback returns", {"kind": "crash"}))
     # exception thrown into the dependency iff propagation is enabled
     for g, inst, saw in d.closes:
         want = d.expected_err if (prop and d.error_found) else None
@@ -463,3 +468,134 @@ def c06_actions(case, ex, log):
     for g in sorted(by_g):
         acts += by_g[g]
     return acts
+
+
+# --------------------------------------------------------------------------- shrinking a failing case
+def _drop_node(case, k):
+    c = json.loads(json.dumps(case))
+    ren = {j: (j if j < k else j - 1) for j in range(len(c["nodes"])) if j != k}
+    del c["nodes"][k]
+    for n in c["nodes"]:
+        n["subs"] = [[ren[a], b] for a, b in n["subs"] if a != k]
+    for t in c["tasks"]:
+        t["deps"] = [[ren[a], b] for a, b in t["deps"] if a != k]
+    for m in c["msgs"]:
+        f = m.get("fail")
+        if f is not None:
+            if f["node"] == k:
+                del m["fail"]
+            else:
+                f["node"] = ren[f["node"]]
+    return c
+
+
+def reductions(case):
+    """all one-step simplifications of a case (each still a well-formed case)"""
+    out = []
+
+    def variant(fn):
+        c = json.loads(json.dumps(case))
+        if fn(c) is not False and c != case:
+            out.append(c)
+
+    nm = len(case["msgs"])
+    if nm > 2:
+        for i in range(nm):          # big steps first: keep one or two messages only
+            variant(lambda c, i=i: c.update(msgs=[c["msgs"][i]]))
+        for i in range(nm):
+            for j in range(i + 1, nm):
+                variant(lambda c, i=i, j=j: c.update(msgs=[c["msgs"][i], c["msgs"][j]]))
+    for i in range(nm):
+        if nm > 1:
+            variant(lambda c, i=i: c["msgs"].pop(i))
+    used = set()
+    for t in case["tasks"]:
+        used |= set(reachable(case["nodes"], [d for d, _ in t["deps"]]))
+    unused = [k for k in range(len(case["nodes"])) if k not in used]
+    if unused:
+        c2 = case
+        for k in reversed(unused):
+            c2 = _drop_node(c2, k)
+        out.append(c2)
+    for t in range(len(case["tasks"])):
+        if len(case["tasks"]) > 1 and all(m["task"] != t for m in case["msgs"]):
+            def f(c, t=t):
+                c["tasks"].pop(t)
+                for m in c["msgs"]:
+                    m["task"] -= m["task"] > t
+            variant(f)
+        for j in range(len(case["tasks"][t]["deps"])):
+            variant(lambda c, t=t, j=j: c["tasks"][t]["deps"].pop(j))
+        variant(lambda c, t=t: c["tasks"][t].update(sync=False))
+        variant(lambda c, t=t: c["tasks"][t].update(ctx=False))
+    for k in range(len(case["nodes"])):
+        out.append(_drop_node(case, k))
+        for j in range(len(case["nodes"][k]["subs"])):
+            variant(lambda c, k=k, j=j: c["nodes"][k]["subs"].pop(j))
+            variant(lambda c, k=k, j=j: c["nodes"][k]["subs"][j].__setitem__(1, True))
+        variant(lambda c, k=k: c["nodes"][k].update(swallow=False))
+        variant(lambda c, k=k: c["nodes"][k].update(ctx=False))
+        st = case["nodes"][k]["style"]
+        if st in YIELDING and st != "gen":
+            variant(lambda c, k=k: c["nodes"][k].update(style="gen"))
+        if st == "coro":
+            variant(lambda c, k=k: c["nodes"][k].update(style="plain"))
+    for i, m in enumerate(case["msgs"]):
+        for key in ("fail", "timeout", "save_fail", "save_pause"):
+            if m.get(key) is not None:
+                variant(lambda c, i=i, key=key: c["msgs"][i].pop(key))
+        if m.get("outcome", "return") != "return":
+            variant(lambda c, i=i: c["msgs"][i].update(outcome="return"))
+        if m.get("start"):
+            variant(lambda c, i=i: c["msgs"][i].update(start=0))
+        if m.get("dur"):
+            variant(lambda c, i=i: c["msgs"][i].update(dur=[]))
+        if m.get("pauses") and m["pauses"] != [None]:
+            variant(lambda c, i=i: c["msgs"][i].update(pauses=[None]))
+            if len(m["pauses"]) > 1:
+                variant(lambda c, i=i: c["msgs"][i].update(pauses=c["msgs"][i]["pauses"][:-1]))
+        if m.get("ackable", "sync") != "sync":
+            variant(lambda c, i=i: c["msgs"][i].update(ackable="sync"))
+    if case.get("middleware", True):
+        variant(lambda c: c.update(middleware=False))
+    if case.get("via_inmemory"):
+        variant(lambda c: c.update(via_inmemory=False))
+    return out
+
+
+def shrink_failures(ctx, rep, fails_of, is_known=lambda f: False, rounds=30, budget_s=40.0, kinds=3):
+    """replace the case of the first unexplained failure of each kind by a locally minimal one that still fails
+    in the same way on the implementation (the replay file then holds the small case)"""
+    import time
+    seen = set()
+    t_end = time.time() + budget_s
+    for f in rep.failures:
+        if is_known(f) or f["what"] in seen or not isinstance(f.get("case"), dict) or "nodes" not in f["case"]:
+            continue
+        seen.add(f["what"])
+        if len(seen) > kinds:
+            break
+        case = f["case"]
+        best = None
+        for _ in range(rounds):
+            if time.time() > t_end:
+                break
+            cands = reductions(case)
+            if not cands:
+                break
+            obs = C.run_driver(ctx, "deps_driver", cands)
+            hit = None
+            for c, o in zip(cands, obs):
+                if "_crash" in o:
+                    continue
+                for what, observed, expected, sig in fails_of(c, o):
+                    g = dict(what=what, case=c, observed=observed, expected=expected, sig=sig)
+                    if what == f["what"] and not is_known(g):
+                        if hit is None or len(json.dumps(c)) < len(json.dumps(hit["case"])):
+                            hit = g
+                        break
+            if not hit:
+                break
+            case, best = hit["case"], hit
+        if best:
+            f.update(case=best["case"], observed=best["observed"], expected=best["expected"], sig=best["sig"])
